@@ -687,6 +687,8 @@ class SymStr(Proxy):
             return x in self.literal()
         if isinstance(x, str) and len(x) >= 1 and any(p[0] == 'lit' and x in p[1] for p in self.pieces):
             return True
+        if isinstance(x, str) and len(x) == 1 and x not in '-0123456789' and self._structured():
+            return False        # literal pieces were checked above; the decimal rendering of an integer has only digits and '-'
         base = self._base_sym(x)
         if base is not None:
             return SymBool(char_in_sym(base, x))
@@ -696,8 +698,55 @@ class SymStr(Proxy):
     def __contains__(self, x):
         return bool(self.vf_contains(x))
 
+    def _structured(self):
+        return all(p[0] in ('lit', 'int') for p in self.pieces)
+
+    def _piece_len(self, p):
+        """length of a piece as a concrete int, when it is determined (forks / fails otherwise)"""
+        if p[0] == 'lit': return len(p[1])
+        if p[0] == 'int' and p[2] and p[2][0] == '0' and p[2][1:].isdigit():
+            w = int(p[2][1:])
+            if decide(z3.And(p[1] >= 0, p[1] < 10 ** w)):      # zero-padded to exactly w digits
+                return w
+        if p[0] == 'int' and p[2] == '':
+            # decimal rendering of a non-negative integer below 10**9: fork on the number of digits
+            if decide(p[1] >= 0):
+                for k in range(1, 10):
+                    if decide(p[1] < 10 ** k): return k
+        raise Unsupported('length of piece %r' % (p[0],))
+
+    def split(self, sep=None, *a):
+        if self.is_literal(): return self.literal().split(sep, *a)
+        if a or not isinstance(sep, str) or len(sep) != 1 or sep in '-0123456789' or not self._structured():
+            raise Unsupported('SymStr.split(%r)' % (sep,))
+        parts = [[]]
+        for p in self.pieces:
+            if p[0] == 'lit':
+                chunks = p[1].split(sep)
+                parts[-1].append(('lit', chunks[0]))
+                for c in chunks[1:]: parts.append([('lit', c)])
+            else:
+                parts[-1].append(p)
+        return [SymStr(x) for x in parts]
+
+    def vf_int(self):
+        """int(s) for a string that is the decimal rendering of one symbolic integer"""
+        if self.is_literal(): return int(self.literal())
+        ps = [p for p in self.pieces if not (p[0] == 'lit' and p[1] == '')]
+        if len(ps) == 1 and ps[0][0] == 'int':
+            e, fmt = ps[0][1], ps[0][2]
+            if fmt == '' or (fmt[0] == '0' and decide(e >= 0)):
+                return SymInt(e)                   # int(str(n)) == n ; int('%06d' % n) == n for n >= 0
+        if len(ps) == 2 and ps[0][0] == 'int' and ps[0][2] == '' and ps[1][0] == 'lit' and ps[1][1].isdigit() and decide(ps[0][1] >= 0):
+            return SymInt(ps[0][1] * 10 ** len(ps[1][1]) + int(ps[1][1]))      # int(str(n) + 'ddd') == n * 1000 + ddd for n >= 0
+        if len(ps) == 2 and ps[0] == ('lit', '-') and ps[1][0] == 'int' and ps[1][2] == '' and decide(ps[1][1] >= 0):
+            return SymInt(-ps[1][1])               # int('-' + str(n)) == -n for n >= 0
+        raise Unsupported('int(%s)' % self.show())
+
     def startswith(self, x, *a):
         if a: raise Unsupported('startswith with range')
+        if isinstance(x, str) and x == '-' and self.pieces and self.pieces[0][0] == 'int' and self.pieces[0][2] in ('', ):
+            return SymBool(self.pieces[0][1] < 0)   # str(n) starts with '-' iff n < 0
         if isinstance(x, tuple):
             for y in x:
                 if self.startswith(y): return True
@@ -750,6 +799,15 @@ class SymStr(Proxy):
             return self.literal()[k]
         if isinstance(k, slice) and k.step is None and k.stop is None and (k.start is None or (isinstance(k.start, int) and k.start == 0)):
             return self                       # s[0:] / s[:] is s
+        if isinstance(k, slice) and k.step is None and k.start in (None, 0) and isinstance(k.stop, int) and k.stop >= 0 and self._structured():
+            out = []; left = k.stop            # prefix of known-length pieces
+            for p in self.pieces:
+                if left <= 0: break
+                n = self._piece_len(p)
+                if n <= left: out.append(p); left -= n
+                elif p[0] == 'lit': out.append(('lit', p[1][:left])); left = 0
+                else: raise Unsupported('slice cuts an integer piece')
+            return SymStr(out)
         raise Unsupported('SymStr[%r]' % (k,))
 
     def _absent(self, ch):
